@@ -38,6 +38,7 @@ DESIGN_REF = "DESIGN.md section 4 C24"
 
 # construct pool: (tag, text); every snippet is a complete rule body element
 ATOMS = [
+    ("ref_keyword_prefix", "importer"), ("ref_keyword_prefix", "assoc"), ("ref_keyword_prefix", "eoltermx"),
     ("str", "'kw'"), ("str_dq", '"k\\"w"'), ("re", "/[a-z]+/"), ("re_escaped_slash", "/a\\/b/"), ("re_backslash", "/\\\\/"),
     ("re_backslash_d", "/\\d+\\.\\d*/"), ("ref", "Other"), ("base", "INT"), ("ref_digit_ident", "1st"),
     ("ref_qualified", "pkg.Other"), ("group", "('a' | Other 'b')"), ("group_nested", "(('a')? Other)"),
@@ -121,7 +122,9 @@ def syntax_texts(draw):
         tags.append(ht)
     text = draw(outer_comments(tags)) + head + draw(outer_comments(tags))
     for i in range(draw(st.integers(1, 4))):
-        name = draw(st.sampled_from(["Model", "Rule1", "X", "9lives"])) + (str(i) if i else "")
+        # names that start with a keyword of the grammar language (import, reference, as, eolterm, parent)
+        name = draw(st.sampled_from(["Model", "Rule1", "X", "9lives", "importer", "referenced", "assoc", "eoltermx",
+                                     "parents"])) + (str(i) if i else "")
         if name.startswith("9"):
             tags.append("rule_name_digit_ident")
         pt, params = draw(st.sampled_from(PARAMS))
